@@ -24,6 +24,14 @@ def ArgsStmt (T : Table) (as : Args) : Prop :=
   as ≠ .nil → FitsArgs T as → ∀ (rest : List Tok) (f : Nat), needArgs as ≤ f →
     args T f (flatArgs as ++ .TkRightParen :: rest) = .ok (as, rest)
 
+def FieldsStmt (T : Table) (fs : Fields) : Prop :=
+  fs ≠ .nil → FitsFields T fs → ∀ (rest : List Tok) (f : Nat), needFields fs ≤ f →
+    fieldsP T f (flatFields fs ++ .TkRightBrace :: rest) = .ok (fs, rest)
+
+def FieldStmt (T : Table) (fd : Field) : Prop :=
+  FitsField T fd → ∀ (c : Tok) (rest : List Tok) (f : Nat), (c = .TkComma ∨ c = .TkRightBrace) →
+    needField fd ≤ f → fieldP T f (flatField fd ++ c :: rest) = .ok (fd, c :: rest)
+
 theorem need_pos : ∀ e : Expr, 1 ≤ need e := by
   intro e; cases e <;> simp [need] <;> omega
 
@@ -66,6 +74,24 @@ theorem absorb_of_prefix (e : Expr) (hp : IsPrefix e = true) (hP : AbsorbPStmt T
       cases rest with
       | nil => simp at ht
       | cons t' r => simp at ht; subst ht; exact ⟨hok.1, hok.2.2.2.1⟩
+
+/-- the two tokens that can follow a table field -/
+theorem closer_facts (hT : T.Good) (c : Tok) (hc : c = .TkComma ∨ c = .TkRightBrace) :
+    isSuffixStart c = false ∧ c ≠ .TkTernary ∧ c ≠ .TkArrow ∧ unsupportedArgStart c = false ∧
+      T.binaryOf c = .OpNop := by
+  rcases hc with rfl | rfl
+  · exact ⟨by decide, by decide, by decide, by decide, hT.comma_not_binary⟩
+  · exact ⟨by decide, by decide, by decide, by decide, hT.rbrace_not_binary⟩
+
+theorem flatField_head (hT : T.Good) (fd : Field) (h : FitsField T fd) :
+    ∃ t ts, flatField fd = t :: ts ∧ t ≠ .TkRightBrace := by
+  cases fd with
+  | pos e =>
+    simp only [FitsField] at h
+    obtain ⟨t, ts, h1, h2⟩ := flat_head e 0 h
+    exact ⟨t, ts, by simp [flatField, h1], (startTok_ne t h2).2.1⟩
+  | named e => exact ⟨.TkName, _, by simp [flatField]; rfl, by decide⟩
+  | keyed k e => exact ⟨.TkLeftBracket, _, by simp [flatField]; rfl, by decide⟩
 
 mutual
 theorem both (hT : T.Good) : ∀ e : Expr, AbsorbStmt T e ∧ AbsorbPStmt T e
@@ -230,6 +256,7 @@ theorem both (hT : T.Good) : ∀ e : Expr, AbsorbStmt T e ∧ AbsorbPStmt T e
         have hh : (flatArgs (.cons a as') ++ .TkRightParen :: rest).head? ≠ some .TkRightParen := by
           simp only [FitsArgs] at hfit
           obtain ⟨t, ts, h1, h2⟩ := flat_head a 0 hfit.2.2.1
+          have h2 := (startTok_ne t h2).1
           cases as' <;> simp [flatArgs, h1, h2]
         rw [suffix_call g' limit p _ _ rest hh hargs]
         exact hsuf g' (by omega)
@@ -256,10 +283,112 @@ theorem both (hT : T.Good) : ∀ e : Expr, AbsorbStmt T e ∧ AbsorbPStmt T e
         have hh : (flatArgs (.cons a as') ++ .TkRightParen :: rest).head? ≠ some .TkRightParen := by
           simp only [FitsArgs] at hfit
           obtain ⟨t, ts, h1, h2⟩ := flat_head a 0 hfit.2.2.1
+          have h2 := (startTok_ne t h2).1
           cases as' <;> simp [flatArgs, h1, h2]
         rw [suffix_mcall g' limit p _ _ rest hh hargs]
         exact hsuf g' (by omega)
     exact ⟨absorb_of_prefix _ rfl hP, hP⟩
+  | .table fs => by
+    refine ⟨?_, fun hp => by simp [IsPrefix] at hp⟩
+    have ihf := bothFields hT fs
+    intro limit rest res G hG hfit _ hloop f hf
+    simp only [Fits] at hfit
+    simp only [need] at hf
+    obtain ⟨f', rfl⟩ : ∃ f', f = f' + 1 := ⟨f - 1, by omega⟩
+    simp only [flat, List.cons_append, List.append_assoc, List.nil_append]
+    have htab : tableP T f' (flatFields fs ++ .TkRightBrace :: rest) = .ok (fs, rest) := by
+      obtain ⟨f'', rfl⟩ : ∃ f'', f' = f'' + 1 := ⟨f' - 1, by omega⟩
+      cases fs with
+      | nil => simp only [flatFields, List.nil_append]; exact tableP_nil f'' rest
+      | cons fd fs' =>
+        have hh : (flatFields (.cons fd fs') ++ .TkRightBrace :: rest).head? ≠ some .TkRightBrace := by
+          simp only [FitsFields] at hfit
+          obtain ⟨t, ts, h1, h2⟩ := flatField_head hT fd hfit.1
+          cases fs' <;> simp [flatFields, h1, h2]
+        rw [tableP_fields f'' _ hh]
+        exact ihf (by simp) hfit rest f'' (by omega)
+    rw [sub_table f' limit _ rest fs hT.lbrace_not_unary htab]
+    exact hloop f' (by omega)
+  | .closure n va => by
+    refine ⟨?_, fun hp => by simp [IsPrefix] at hp⟩
+    intro limit rest res G hG _ _ hloop f hf
+    simp only [need] at hf
+    obtain ⟨f', rfl⟩ : ∃ f', f = f' + 1 := ⟨f - 1, by omega⟩
+    have e : flat (.closure n va) ++ rest =
+        .TkFunction :: .TkLeftParen :: (paramToks n va ++ .TkRightParen :: .TkEnd :: rest) := by
+      simp [flat, List.append_assoc]
+    rw [e, sub_closure f' limit n va rest hT.function_not_unary]
+    exact hloop f' (by omega)
+theorem bothFields (hT : T.Good) : ∀ fs : Fields, FieldsStmt T fs
+  | .nil => fun h => absurd rfl h
+  | .cons fd fs' => by
+    have ihd := bothField hT fd
+    have ihr := bothFields hT fs'
+    intro _ hfit rest f hf
+    simp only [FitsFields] at hfit
+    simp only [needFields] at hf
+    obtain ⟨f', rfl⟩ : ∃ f', f = f' + 1 := ⟨f - 1, by omega⟩
+    cases fs' with
+    | nil =>
+      simp only [flatFields]
+      exact fieldsP_last f' _ rest fd (ihd hfit.1 .TkRightBrace rest f' (Or.inr rfl) (by omega))
+    | cons fd2 fs2 =>
+      simp only [flatFields, List.append_assoc, List.cons_append]
+      have h1 := ihd hfit.1 .TkComma (flatFields (.cons fd2 fs2) ++ .TkRightBrace :: rest) f' (Or.inl rfl) (by omega)
+      have hh : (flatFields (.cons fd2 fs2) ++ .TkRightBrace :: rest).head? ≠ some .TkRightBrace := by
+        simp only [FitsFields] at hfit
+        obtain ⟨t, ts, g1, g2⟩ := flatField_head hT fd2 hfit.2.1
+        cases fs2 <;> simp [flatFields, g1, g2]
+      have h2 := ihr (by simp) hfit.2 rest f' (by simp only [needFields] at hf ⊢; omega)
+      exact fieldsP_more f' _ _ rest fd _ h1 hh h2
+theorem bothField (hT : T.Good) : ∀ fd : Field, FieldStmt T fd
+  | .pos e => by
+    have ih := (both hT e).1
+    intro hfit c rest f hc hf
+    simp only [FitsField] at hfit
+    simp only [needField] at hf
+    obtain ⟨f', rfl⟩ : ∃ f', f = f' + 1 := ⟨f - 1, by omega⟩
+    have hcl := closer_facts hT c hc
+    have hsub : sub T f' 0 (flat e ++ c :: rest) = .ok (e, c :: rest) :=
+      ih 0 (c :: rest) _ 1 (by omega) hfit (okAfter_closer e _ _ hcl.1 hcl.2.1 hcl.2.2.1 hcl.2.2.2.1 hcl.2.2.2.2)
+        (fun g hg => loop_closer g 0 e _ _ hcl.2.1 hcl.2.2.2.2 hg) f' (by omega)
+    obtain ⟨t, ts, h1, h2⟩ := flat_head e 0 hfit
+    obtain ⟨_, _, n3, n4, _⟩ := startTok_ne t h2
+    simp only [flatField]
+    rw [h1, List.cons_append] at hsub ⊢
+    refine fieldP_pos f' t _ (c :: rest) e n3 ?_ n4 hsub
+    intro ht; subst ht
+    exact flat_name_second hT e 0 hfit ts h1 (c :: rest) (by rcases hc with rfl | rfl <;> simp)
+  | .named e => by
+    have ih := (both hT e).1
+    intro hfit c rest f hc hf
+    simp only [FitsField] at hfit
+    simp only [needField] at hf
+    obtain ⟨f', rfl⟩ : ∃ f', f = f' + 1 := ⟨f - 1, by omega⟩
+    have hcl := closer_facts hT c hc
+    have hsub : sub T f' 0 (flat e ++ c :: rest) = .ok (e, c :: rest) :=
+      ih 0 (c :: rest) _ 1 (by omega) hfit (okAfter_closer e _ _ hcl.1 hcl.2.1 hcl.2.2.1 hcl.2.2.2.1 hcl.2.2.2.2)
+        (fun g hg => loop_closer g 0 e _ _ hcl.2.1 hcl.2.2.2.2 hg) f' (by omega)
+    simp only [flatField, List.cons_append]
+    exact fieldP_named f' _ (c :: rest) e hsub
+  | .keyed k e => by
+    have ihk := (both hT k).1
+    have ih := (both hT e).1
+    intro hfit c rest f hc hf
+    simp only [FitsField] at hfit
+    simp only [needField] at hf
+    obtain ⟨f', rfl⟩ : ∃ f', f = f' + 1 := ⟨f - 1, by omega⟩
+    have hcl := closer_facts hT c hc
+    have hsub : sub T f' 0 (flat e ++ c :: rest) = .ok (e, c :: rest) :=
+      ih 0 (c :: rest) _ 1 (by omega) hfit.2 (okAfter_closer e _ _ hcl.1 hcl.2.1 hcl.2.2.1 hcl.2.2.2.1 hcl.2.2.2.2)
+        (fun g hg => loop_closer g 0 e _ _ hcl.2.1 hcl.2.2.2.2 hg) f' (by omega)
+    have hsubk : sub T f' 0 (flat k ++ .TkRightBracket :: .TkAssign :: (flat e ++ c :: rest)) =
+        .ok (k, .TkRightBracket :: .TkAssign :: (flat e ++ c :: rest)) :=
+      ihk 0 _ _ 1 (by omega) hfit.1
+        (okAfter_closer k _ _ (by decide) (by decide) (by decide) (by decide) hT.rbracket_not_binary)
+        (fun g hg => loop_closer g 0 k _ _ (by decide) hT.rbracket_not_binary hg) f' (by omega)
+    simp only [flatField, List.cons_append, List.append_assoc]
+    exact fieldP_keyed f' _ _ (c :: rest) k e hsubk hsub
 theorem bothArgs (hT : T.Good) : ∀ as : Args, ArgsStmt T as
   | .nil => fun h => absurd rfl h
   | .cons a as' => by
@@ -287,13 +416,14 @@ theorem bothArgs (hT : T.Good) : ∀ as : Args, ArgsStmt T as
       have hh : (flatArgs (.cons b bs) ++ .TkRightParen :: rest).head? ≠ some .TkRightParen := by
         simp only [FitsArgs] at hfit
         obtain ⟨t, ts, h1, h2⟩ := flat_head b 0 hfit.2.1
+        have h2 := (startTok_ne t h2).1
         cases bs <;> simp [flatArgs, h1, h2]
       have hrest := ihr (by simp) hfit.2 rest f' (by simp only [needArgs] at hf ⊢; omega)
       exact args_more f' _ _ rest a _ hsub hh hrest
 end
 
 mutual
-theorem need_le : ∀ e : Expr, need e ≤ 2 * (flat e).length
+theorem need_le : ∀ e : Expr, need e ≤ 4 * (flat e).length
   | .lit _ => by simp [need, flat]
   | .name => by simp [need, flat]
   | .paren e => by have := need_le e; simp [need, flat]; omega
@@ -303,11 +433,22 @@ theorem need_le : ∀ e : Expr, need e ≤ 2 * (flat e).length
   | .idx p k => by have := need_le p; have := need_le k; simp [need, flat]; omega
   | .call p as => by have := need_le p; have := needArgs_le as; simp [need, flat]; omega
   | .mcall p as => by have := need_le p; have := needArgs_le as; simp [need, flat]; omega
-theorem needArgs_le : ∀ as : Args, needArgs as ≤ 2 * (flatArgs as).length + 2
+  | .table fs => by have := needFields_le fs; simp [need, flat]; omega
+  | .closure n va => by simp [need, flat]; omega
+theorem needArgs_le : ∀ as : Args, needArgs as ≤ 4 * (flatArgs as).length + 2
   | .nil => by simp [needArgs]
   | .cons a .nil => by have := need_le a; simp [needArgs, flatArgs]; omega
   | .cons a (.cons b bs) => by
     have := need_le a; have := needArgs_le (.cons b bs); simp [needArgs, flatArgs] at *; omega
+theorem needFields_le : ∀ fs : Fields, needFields fs ≤ 4 * (flatFields fs).length + 4
+  | .nil => by simp [needFields]
+  | .cons a .nil => by have := needField_le a; simp [needFields, flatFields]; omega
+  | .cons a (.cons b bs) => by
+    have := needField_le a; have := needFields_le (.cons b bs); simp [needFields, flatFields] at *; omega
+theorem needField_le : ∀ fd : Field, needField fd ≤ 4 * (flatField fd).length + 2
+  | .pos e => by have := need_le e; simp [needField, flatField]; omega
+  | .named e => by have := need_le e; simp [needField, flatField]; omega
+  | .keyed k e => by have := need_le k; have := need_le e; simp [needField, flatField]; omega
 end
 
 end Climb
